@@ -262,6 +262,7 @@ func Run[C any](t *testing.T, prop, rule string, o Opts, gen func(*rapid.T) C, i
 		}
 		if os.Getenv("VERIF_TRACE") != "" {
 			_ = os.WriteFile(filepath.Join(outDir(), fmt.Sprintf("%s.%s.current.json", prop, rule)), raw, 0o644)
+			_ = os.WriteFile(filepath.Join(outDir(), prop+".last"), []byte(rule), 0o644)
 		}
 		wedgeEnter(prop, rule, raw, st, start)
 		v := runInterp(interp, c)
